@@ -205,10 +205,16 @@ def run_history(hist, cuts, merge, retention, target, use_set, others, comb, hel
         for ia, ib in pairs:
             c = f(Candidate(a.value(), ia), Candidate(b.value(), ib))
             prod.append((c.value, c.info))
-        check_entry(res, prod, merge, retention, "combine") if prod else None
-        if not prod:
-            if set(res.infos()) or not res.is_infinite():
-                raise Violation("entry.combine.empty", observed=str(res.value()), expected="infinitely bad, no tags")
+        # the combination of nothing is infinitely BAD for the merge policy (+inf for MIN, -inf for MAX), with no tags;
+        # check_entry asserts exactly that for an empty list of offered candidates
+        check_entry(res, prod, merge, retention, "combine")
+        # the result is an entry like any other: candidates offered to it afterwards compete with what it holds, under
+        # the same merge and retention policies
+        # (tags of one entry are mutually orderable - info() takes their minimum: the later tags are pairs like the combined ones)
+        later = [(1, ("b", "b")), (0, None), (1, ("a", "z")), (2, ("c", "c"))] if merge == "MIN" else [(1, ("b", "b")), (2, None), (1, ("a", "z")), (0, ("c", "c"))]
+        for k, (v, t) in enumerate(later):
+            res.update(Candidate(v, t))
+            check_entry(res, prod + later[: k + 1], merge, retention, f"combine, then {k + 1} more candidates")
 
 
 FIXED_OTHERS = ([(1, "a"), (1, "b"), (0, None)], [(2, "b"), (2, "a")])
